@@ -28,7 +28,10 @@ def run_grammar(args):
     seed, idx, workroot, thorough, kw = args
     import random
     rng = random.Random(seed * 1000003 + idx)
-    pg = complete.probe_gen(rng, max_depth=rng.choice([2, 3, 3, 4]), **kw)
+    if kw.get("twins") and idx % 4 == 3:
+        pg = complete.twin_gen(rng)
+    else:
+        pg = complete.probe_gen(rng, max_depth=rng.choice([2, 3, 3, 4]), **{k: v for k, v in kw.items() if k != "twins"})
     text = pg.text()
     rc, out, err = core.run_complgen("bash", text)
     if rc != 0:
@@ -93,16 +96,47 @@ def judge_candidates(ctx, rp, got, want, spec):
 
 
 def judge_calls(ctx, rp, pg, log, got, want, spec):
-    pass
+    """C17: which commands ran, with which arguments; command candidates = text before the first tab"""
+    calls = complete.probe_calls(pg, log)
+    rp = dict(rp, calls=sorted(calls), allowed=sorted(spec["allowed"]), required=sorted(spec["required"]))
+    if calls:
+        ctx.nontriv((rp["grammar"], tuple(rp["words"]), rp["prefix"]))
+    ctx.count(f"calls:{min(len(calls), 4)}")
+    extra = calls - spec["allowed"]
+    if extra:
+        c = sorted(extra)[0]
+        known_cmd = any(c[0] == a[0] for a in spec["allowed"])
+        kind = "wrong-arguments" if known_cmd else "command-run-where-not-expected"
+        ctx.violation(kind, dict(rp, what=f"the script ran {c[0]!r} with arguments ({c[1]!r}, {c[2]!r}); the grammar allows {sorted(spec['allowed'])}"))
+        return
+    if got == want and want is not None:
+        missing = spec["required"] - calls
+        if missing:
+            c = sorted(missing)[0]
+            ctx.violation("expected-command-not-run", dict(rp, what=f"{c[0]!r} should have been run with ({c[1]!r}, {c[2]!r})"))
+            return
+    if got != want:
+        norm = lambda x: None if x == "N" else x
+        if spec["lenient_word"] is not None and got == norm(spec["lenient_word"]):
+            return   # C01's recorded finding (unfinished word), not about commands
+        if spec["lenient_last"] is not None and got == norm(spec["lenient_last"]):
+            ctx.violation("unmatched-last-word-ignored-at-command-point", dict(rp, what="the last complete word equals no candidate of the expected command, yet the line is not rejected"))
+            return
+        fields = {l.split("\t")[0] for out in pg.outputs.values() for l in out.split("\n") if l}
+        diff = set(got or []) ^ set(want or [])
+        if got is None or want is None or any(any(d.endswith(f) for f in fields) for d in diff):
+            ctx.violation("command-candidates-differ", dict(rp, what=f"bash offers {got}, the grammar prescribes {want}"))
+    elif ctx.evaluations % 307 == 0:
+        ctx.sample({"grammar": rp["grammar"], "words": rp["words"], "prefix": rp["prefix"], "calls": sorted(calls)}, limit=6)
 
 
 def run(ctx, proof):
-    ctx.extra["rule"] = ("random grammars with probe commands (sequence, |, ||, [], ..., within-word expressions incl. repetition, definitions in "
+    ctx.extra["rule"] = ("random grammars with probe commands (sequence, |, ||, [], ..., within-word expressions incl. repetition and same-shaped ones differing in `||` levels, definitions in "
                          "any order, descriptions); command lines: walks of depth <= 3 through what bash offers + foreign / glob-looking words, "
                          "x prefixes (empty, cuts of vocabulary items, within-word prefixes, foreign) x COMP_WORDBREAKS {default, empty}; "
                          "non-trivial = distinct matched command line with at least one prescribed candidate")
     n = 1500 if ctx.thorough() else 48
-    check_grammars(ctx, n)
+    check_grammars(ctx, n, twins=True)
     ctx.extra["programs"] = n
     ctx.extra["disagreements_checked"] = ctx.evaluations
 
